@@ -21,16 +21,17 @@ The theorems are about the code with `fixes/C46-active-segment.diff` applied (`N
 |---|---|
 | every read eventually completes, delivering its data or an error | read layer: `read_never_idle`, `read_terminates_when_answered` (a started read that is not paused always has a request outstanding or has fired); node layer: `no_stuck_state` (every request is retired at quiescence); fetcher layer: `Struct.quiet` inside `no_stuck_state`, `do_loop_terminates`.  composed: `every_read_terminates` (system `Sys`), `waiting_read_request_is_routed` |
 | … for any pattern of server failures, corrupted or inconsistent shares | node/fetcher theorems allow every answer for every started share in any order (`NEvOk` only forbids OVERDUE from a share that is not outstanding); decode / ciphertext-hash failures = `badSegs` in `no_stuck_state`; the mapping from server faults to share events: monitor only |
-| … late answers | OVERDUE events in the fetcher model (theorem); finder / DYHB timers: monitor only |
+| … late answers | OVERDUE events in the fetcher model (theorem); finder / DYHB overdue timers: `C03.finder_answers_every_hungry` (ShareFinder model) |
 | … concurrent reads on the same file object | `no_stuck_state` quantifies over any interleaving of `getSegment` requests (several per segment, several segments) and cancels; each read is its own `Seg` (`read_never_idle`) — concurrency between reads exists only through the node queue |
-| a read never hangs once every server has answered or failed | `no_stuck_state` + `read_terminates_when_answered`; `NQuiescent` = "every server has answered or failed" at the fetcher interface; that finder and shares reach that state: assumption, monitor only |
+| a read never hangs once every server has answered or failed | `no_stuck_state` + `read_terminates_when_answered`; `NQuiescent` = "every server has answered or failed" at the fetcher interface; that the finder reaches that state: `C03.finder_answers_every_hungry` (every `want_more_shares` is answered by `got_shares` or `no_more_shares` once every server call returned or failed); that the shares do (every `get_block` gets a terminal event): assumption, monitor only (share.py not modelled) |
 | a failed read does not prevent later reads from completing | `later_reads_progress` (after any history incl. failed segments a new request is accepted by a fresh running fetcher and retired at quiescence); `unfixed_stuck_counterexample` (the code before the fix violated it) |
 | quantifier: decode failures and ciphertext hash mismatches followed by further reads on the same node | `no_stuck_state` / `later_reads_progress` with `badSegs`; end-to-end: crafted shares (monitor) |
 | wrong segment-size guess / BadSegmentNumberError retry (seeded C46-c) | `bad_segnum_retry`, `read_never_idle`; `read_writes_exact_range` |
 
 Remaining assumptions: the environment predicates `NEvOk`/`NQuiescent` and `SEvOk` (answers only for
 outstanding requests; every queued `eventually` turn runs); ShareFinder answers every
-`want_more_shares` with `add_shares` or `no_more_shares` (finder.py and its timers not modelled);
+`want_more_shares` with `add_shares` or `no_more_shares` (proved for the separate finder model,
+`C03.finder_answers_every_hungry`; not composed with `Sys` in one system);
 every `get_block` gets a terminal event (share.py not modelled; true for dead shares since 4f1ea1b);
 `eventually(self._deliver, …)` fires the request's Deferred exactly once (Twisted/foolscap); decode in
 the CPU thread pool is one atomic step; a consumer that pauses a read resumes it.
